@@ -158,6 +158,10 @@ func boundedReflectCBOR() (ok bool) {
 			fmt.Printf("bounded: round trip differs: %x vs %x (%v)\n", b, b3, err)
 			return false
 		}
+		if !reflect.DeepEqual(v, n) {
+			fmt.Printf("bounded: populated value differs from the original: %#v vs %#v (via %x)\n", v, n, b)
+			return false
+		}
 	}
 	// flat structs: same map as the plain marshaller's
 	for _, v := range hValues() {
@@ -277,6 +281,10 @@ func boundedReflectJSON() (ok bool) {
 		b3, err := SerializeStructToJSON(n)
 		if err != nil || !bytes.Equal(b, b3) {
 			fmt.Printf("bounded: json round trip differs: %s vs %s\n", b, b3)
+			return false
+		}
+		if !reflect.DeepEqual(v, n) {
+			fmt.Printf("bounded: populated value differs from the original: %#v vs %#v (via %s)\n", v, n, b)
 			return false
 		}
 		if f, isFlat := v.(*hFlat); isFlat {
